@@ -29,10 +29,14 @@ def run(ck, ctx):
     ck.nd("equality of replies for arbitrary command sequences (needs execution); aggregation arithmetic")
     ck.rule("R03.8", "the batched pipelines answer like one shard: every key of a pipelined GET/SET batch is queued for its shard on every path "
                      "of the bucketing loop and each reply slot is filled from that key's own shard response (shared with C02 R02.7)")
+    ck.rule("R03.9", "shard-local configuration stays behind the keyless CONFIG commands: the executor's ServerConfig (one copy per shard, "
+                     "written by CONFIG SET, which the router sends to one shard only) is read and written solely by the CONFIG handlers; a keyed "
+                     "command that consulted it would answer by the home shard's copy, which CONFIG SET never reached when N > 1")
     for cfg in ctx.configs:
         prog = ctx.prog(cfg)
         ck.configs.append(cfg)
         ck.fn_count += len(prog.fns)
+        _r039(ck, prog, cfg)
         from . import c02 as _c02
         from .core import Alias as _Alias
         _c02._r027(_Alias(ck, "R02.7", "R03.8"), prog, cfg)
@@ -417,3 +421,41 @@ def _r037(ck, prog, cfg):
                      f.where(t["ln"]), detail="only on the `shared_script_cache == None` edge")
     if cfg != "nodefault" or n:
         ck.floor("R03.7" + _tag(cfg), n, 3)
+
+
+# ------------------------------------------------------------------------------------------------
+def _places_of(node, out):
+    if isinstance(node, dict):
+        if "l" in node and "p" in node:
+            out.append(node)
+        for v in node.values():
+            _places_of(v, out)
+    elif isinstance(node, list):
+        for v in node:
+            _places_of(v, out)
+
+
+def _r039(ck, prog, cfg):
+    EX = "redis::executor::CommandExecutor"
+    adt = prog.adts.get(EX)
+    cfg_fields = [x["n"] for x in adt["variants"][0]["fields"] if "ServerConfig" in x.get("t", "")] if adt else []
+    if not cfg_fields:
+        ck.anchor_lost("R03.9", "CommandExecutor has no ServerConfig field any more")
+        return
+    users = {}
+    for f in prog.fns.values():
+        out = []
+        _places_of(f.d.get("blocks"), out)
+        for pl in out:
+            for e in pl["p"]:
+                if isinstance(e, dict) and e.get("o") == EX and e.get("f") in cfg_fields:
+                    users.setdefault(f.id, f)
+    n = 0
+    for fid, f in sorted(users.items()):
+        n += 1
+        ok = f.file == "src/redis/executor/config_ops.rs" or re.search(r"CommandExecutor::(new|with_shared_script_cache|default)$", fid)
+        ck.check(bool(ok), "R03.9", "config-reader:%s%s" % (fid.rsplit("::", 1)[-1] if "{closure" not in fid else fid.rsplit("::", 2)[-2] + "::{closure}", _tag(cfg)),
+                 "%s reads or writes the executor's per-shard ServerConfig outside the CONFIG handlers: CONFIG SET reaches one shard only, so with "
+                 "more than one shard a command served by another shard sees a different configuration than a one-shard server" % fid, f.where(),
+                 detail="ServerConfig touched only by config_ops")
+    ck.floor("R03.9" + _tag(cfg), n, 2)
